@@ -648,6 +648,36 @@ func c13Script(r *gen.Rng, o *out.W) {
 	o.Sample(fmt.Sprintf("takeover script, %d lines", len(w.trace)))
 }
 
+
+// takeover storms around a stuck old connection (C13): while the old holder of the id cannot finish
+// dying, newcomers are refused (kill timeout); none of them may be installed next to it, and later
+// connections must still find whoever holds the id — temporary (clean) sessions included
+func c13Stalled(r *gen.Rng, o *out.W) {
+	w := newWorld(o, "C13", 1+r.Intn(3), 100, nil)
+	will := func() *packet.Message {
+		w.seq++
+		return &packet.Message{Topic: "w", Payload: []byte(fmt.Sprintf("will-v%d", w.seq)), QOS: 1}
+	}
+	obs := w.Conn()
+	w.Connect(obs, "OBS", true, nil, 0, "", "")
+	w.Subscribe(obs, packet.Subscription{Topic: "w", QOS: 0})
+	old := w.Conn()
+	w.Connect(old, "V", r.Intn(3) != 0, will(), 0, "", "")
+	w.Stall(old)
+	for i, n := 0, 1+r.Intn(3); i < n; i++ {
+		c := w.Conn()
+		w.Connect(c, "V", r.Intn(3) != 0, will(), 0, "", "")
+	}
+	w.Unstall(old)
+	for i, n := 0, 1+r.Intn(3); i < n; i++ {
+		c := w.Conn()
+		w.Connect(c, "V", r.Intn(3) != 0, will(), 0, "", "")
+	}
+	w.finish()
+	o.Distinct(strings.Join(w.trace, "\n"))
+	o.Sample(fmt.Sprintf("stalled takeover script, %d lines", len(w.trace)))
+}
+
 // resume with several unacknowledged messages (C15: retransmission order)
 func c15Resume(r *gen.Rng, o *out.W) {
 	win := 4 + r.Intn(7)
@@ -731,6 +761,7 @@ func TestHarness(t *testing.T) {
 		sc("C12 termination", c12Script)
 	case "C13":
 		sc("C13 takeover", c13Script)
+		sc("C13 stalled takeover", c13Stalled)
 	case "C14":
 		rs("C14 hostile", func() profile {
 			return profile{window: 2 + r.Intn(4), queue: 100, clients: 2 + r.Intn(4), steps: 30 + r.Intn(40), wSub: 4, wUnsub: 1, wPub: 8, wAck: 4, wDrop: 3, wRecon: 4, wRelease: 1, wPing: 1, wBad: 6, wFail: 3, retain: 20, wills: true, qos: all, multiFilter: true}
